@@ -55,6 +55,9 @@ impl std::fmt::Display for Ipv4Subnet {
 
 impl Ipv4Subnet {
     pub fn new(addr: std::net::Ipv4Addr, prefixlen: u8) -> Result<Self, Error> {
+        if prefixlen > 32 {
+            return Err(Error::InvalidSubnet);
+        }
         let ret = Self { addr, prefixlen };
         /* If the prefix is too short, then return an error */
         if u32::from(ret.addr) & !u32::from(ret.netmask()) != 0 {
@@ -67,7 +70,7 @@ impl Ipv4Subnet {
         (u32::from(self.addr) & u32::from(self.netmask())).into()
     }
     pub fn netmask(&self) -> std::net::Ipv4Addr {
-        (!(0xffff_ffff_u64 >> self.prefixlen) as u32).into()
+        (!(0xffff_ffff_u64.checked_shr(self.prefixlen.into()).unwrap_or(0)) as u32).into()
     }
     pub fn contains(&self, ip: std::net::Ipv4Addr) -> bool {
         u32::from(ip) & u32::from(self.netmask()) == u32::from(self.addr)
